@@ -34,7 +34,8 @@ def fmt(v):
 
 repo = Repo()
 fi = repo.func(sys.argv[1], sys.argv[2])
-exs = extract_all(repo, fi)
+enter = tuple(a.split("=")[1] for a in sys.argv if a.startswith("--enter="))
+exs = extract_all(repo, fi, enter=enter)
 print(len(exs), "configs")
 for ex in (exs if "--all" in sys.argv else exs[:1]):
     print("CONFIG", [(tstr(t), v) for t, v in ex.config])
